@@ -92,12 +92,30 @@ def shard(a):
                     w = gen.synth(name, alt + v0[len(q):], [(i, ch) for i, ch in enumerate(alt)])
                     if w and w[:len(q)].upper() == q:
                         ws = [w] + ws
+                    # ... also unrepaired: a tree that strips the prefix too eagerly rejects such a number on its own, but
+                    # accepts it behind one more copy of the prefix
+                    ws = [alt + v0[len(q):]] + ws
         for w in ws:
             for q in pres[:3]:
                 for x in (q + w, q + ' ' + w, q.lower() + w):
                     prop({'mod': name, 'x': x, 'opts': {}, 'clock': None}, res)
             for q in pr['suffixes'][:3]:
                 for x in (w + q, w + ' ' + q):
+                    prop({'mod': name, 'x': x, 'opts': {}, 'clock': None}, res)
+    if name == 'gs1_128':
+        # every registered application identifier once with a drawn value, with the value that fills the format, and with
+        # leading zeros in numeric fields (an element typed int / decimal must keep its width)
+        from vf.refs import gs1model
+        for ai in sorted(gs1model.ais()):
+            if not gs1model.modelled(ai):
+                continue
+            encs = [gs1model.simple_value(ai)[0], gs1model.full_value(ai)[0]]
+            comps = gs1model.components(gs1model.ais()[ai]['format'])
+            if all(c[0] == 'N' for c in comps) and gs1model.ais()[ai]['type'] in ('str', 'int'):
+                k = sum(c[2] for c in comps)
+                encs += ['0' * (k - 1) + '7', '0' * k]
+            for enc in encs:
+                for x in (ai + enc, '(%s)%s' % (ai, enc)):
                     prop({'mod': name, 'x': x, 'opts': {}, 'clock': None}, res)
     extra = gen.extra_valid(name)
     if extra is not None:
